@@ -313,7 +313,9 @@ pub trait PolynomialCommitment<F: PrimeField, P: Polynomial<F>>: Sized {
             // the actual point and the second one is the set of labels of the
             // polynomials being queried at that point
             let labels = query_to_labels_map
-                .entry(point_label)
+                // keyed by the label AND the point: a label used for two points opens two groups
+                // instead of dropping the queries (and the claimed evaluations) at the second point
+                .entry((point_label, point))
                 .or_insert((point, BTreeSet::new()));
             labels.1.insert(label);
         }
@@ -402,7 +404,9 @@ pub trait PolynomialCommitment<F: PrimeField, P: Polynomial<F>>: Sized {
             // the actual point and the second one is the set of labels of the
             // polynomials being queried at that point
             let labels = query_to_labels_map
-                .entry(point_label)
+                // keyed by the label AND the point: a label used for two points opens two groups
+                // instead of dropping the queries (and the claimed evaluations) at the second point
+                .entry((point_label, point))
                 .or_insert((point, BTreeSet::new()));
             labels.1.insert(label);
         }
